@@ -32,6 +32,35 @@ var callNoRe = regexp.MustCompile(`\(\)#[0-9]+\.[0-9]+`)
 //	$F float parse, $I integer parse, $T tolerant float parse, $S raw text;
 //
 // cells of the model/record structs are kept (they are dependencies).
+var sigGuards bool // include the model-state guards of a store in its signature
+
+// stateGuardSig renders the guards of e that test model state (not file content or loop counters), with the
+// reader-specific spelling of the perennial flag mapped back to the field.
+func stateGuardSig(x *Exec, e *Event) string {
+	flagKey := ""
+	for _, f := range x.Events {
+		if f.Kind == "assign" && f.Root == "GlobalVarsMain.DAUERKULT" && f.Seq < e.Seq {
+			flagKey = stripVersions(f.Val).String()
+		}
+	}
+	var gs []string
+	for _, g := range flattenGuards(e.Guards) {
+		if g.Loop {
+			continue
+		}
+		k := stripCondVersions(g)
+		if flagKey != "" {
+			k = strings.ReplaceAll(k, flagKey, "GlobalVarsMain.DAUERKULT")
+		}
+		if !strings.Contains(k, "GlobalVarsMain.AKF") && !strings.Contains(k, "GlobalVarsMain.FRUCHT") && !strings.Contains(k, "GlobalVarsMain.DAUERKULT") {
+			continue
+		}
+		gs = append(gs, k)
+	}
+	sort.Strings(gs)
+	return strings.Join(gs, " ; ")
+}
+
 var sigUnify bool // erase the parse kind too (readers that go through local records)
 
 func valueSig(q Poly, keep func(root string) bool) string {
@@ -125,6 +154,11 @@ func collectStores(p *Prog, key string, destOK func(root string) bool, keep func
 			d += "[" + idxSig(e.Idx) + "]"
 		}
 		sig := valueSig(e.Val, keep)
+		if sigGuards {
+			if gs := stateGuardSig(x, e); gs != "" {
+				sig += "  if " + gs
+			}
+		}
 		if seen[d+"\x00"+sig] {
 			continue
 		}
@@ -135,6 +169,7 @@ func collectStores(p *Prog, key string, destOK func(root string) bool, keep func
 }
 
 type sibPair struct {
+	guards  bool
 	unify   bool
 	name    string
 	a, b    string
@@ -159,7 +194,7 @@ func prefixIn(ps ...string) func(string) bool {
 func checkC13(p *Prog, r *Report) {
 	model := prefixIn("GlobalVarsMain.", "CropSharedVars.", "InputSharedVars.")
 	pairs := []sibPair{
-		{unify: true, name: "crop-parameters", a: "hermes.ReadCropParamClassic", b: "hermes.ReadCropParamYml", destOK: model, keep: model, withIdx: true, min: 40,
+		{guards: true, unify: true, name: "crop-parameters", a: "hermes.ReadCropParamClassic", b: "hermes.ReadCropParamYml", destOK: model, keep: model, withIdx: true, min: 40,
 			allowed: map[string]string{
 				"CropSharedVars.AboveGroundOrgans":    "the YAML reader assigns the typed list as a whole, the classic reader builds it digit by digit (same content; range check of the digits is done by both)",
 				"CropSharedVars.AboveGroundOrgans[i]": "see CropSharedVars.AboveGroundOrgans",
@@ -174,6 +209,7 @@ func checkC13(p *Prog, r *Report) {
 	for _, sp := range pairs {
 		r.Rule("C13."+sp.name, fmt.Sprintf("sibling readers %s and %s fill the same destinations with the same value shape (scale factor, parse kind, dependencies on other fields) at the same index shape; accepted differences are listed with a reason", strings.TrimPrefix(sp.a, "hermes."), strings.TrimPrefix(sp.b, "hermes.")), sp.min)
 		sigUnify = sp.unify
+		sigGuards = sp.guards
 		A := collectStores(p, sp.a, sp.destOK, sp.keep, sp.withIdx)
 		B := collectStores(p, sp.b, sp.destOK, sp.keep, sp.withIdx)
 		if A == nil || B == nil {
@@ -215,6 +251,7 @@ func checkC13(p *Prog, r *Report) {
 		}
 	}
 	sigUnify = false
+	sigGuards = false
 	c13Guards(p, r)
 	c13Converter(p, r)
 	c13Weather(p, r)
